@@ -47,6 +47,14 @@ def do_edit(n, e):
 def check(sp, at, side, edit, target):
     case = {"tree": sp, "copy_at": at, "side": side, "edit": edit, "target": target}
     Node.store.clear()
+    # a copy that fails (a child list holding something that is no node) must not spoil the copies made afterwards
+    broken = Node("zzBroken")
+    broken.children.append("not a node")
+    try:
+        broken.copy()
+    except Exception:  # noqa
+        pass
+    Node.store.clear()
     t = treegen.build(sp)
     orig_all = treegen.nodes(t)
     sub = orig_all[at % len(orig_all)]
